@@ -1,5 +1,5 @@
 (* C11 - source text is read with the documented precedence, literals and comments. *)
-From HclV Require Import Base Expr Machine Graph Build Lexer Parser LexParseSpec Generated.
+From HclV Require Import Base Expr Machine Graph Build Lexer Parser LexParseSpec LexParseProofs Generated.
 Open Scope list_scope.
 Open Scope N_scope.
 
@@ -42,6 +42,55 @@ Theorem C11_preamble :
   match preamble_consts with Some t => same_table csapp_names t | None => false end = true.
 Proof. vm_compute. reflexivity. Qed.
 Print Assumptions C11_preamble.
+
+(* precedence and associativity: for EVERY expression the grammar can produce (any operators, any
+   nesting depth), the text with only the parentheses the documented table requires is read back
+   as that very expression - and so is its fully parenthesised text: an unparenthesised program
+   means the same as its fully parenthesised form.  toks_min encodes the table: left operands of a
+   left-associative operator at the same level, right operands one tighter, both operands of a
+   comparison tighter (no chaining), 'in' between | and the comparisons, unary and slicing on
+   simple terms only. *)
+Theorem C11_minimal_parentheses_roundtrip :
+  forall e, printable e -> forall rest, stops rest ->
+    exists fuel0, forall fuel, (fuel0 <= fuel)%nat ->
+      parse_expr doc_tiers fuel (map at_pos (toks_min 0 e) ++ rest) = Some (e, rest).
+Proof. exact roundtrip_min_ok. Qed.
+Print Assumptions C11_minimal_parentheses_roundtrip.
+
+Theorem C11_full_parentheses_roundtrip :
+  forall e, printable e -> forall rest, stops rest ->
+    exists fuel0, forall fuel, (fuel0 <= fuel)%nat ->
+      parse_expr doc_tiers fuel (map at_pos (toks_full e) ++ rest) = Some (e, rest).
+Proof. exact roundtrip_full_ok. Qed.
+Print Assumptions C11_full_parentheses_roundtrip.
+
+(* literals: a decimal or hexadecimal (either case) digit string denotes its positional value,
+   unsized; a binary one its value at a width equal to its digit count; what does not fit 128
+   bits - any length - is rejected as out of range *)
+Theorem C11_decimal_literal :
+  forall uc ds, ds <> [] -> forallb dec_digit ds = true ->
+    lex uc ds =
+    if positional 10 ds <? two128 then one_token (TLit (mkV (positional 10 ds) Unl)) (List.length ds)
+    else ([], Some (LexInvalidConstant 0 (List.length ds))).
+Proof. exact lex_decimal_ok. Qed.
+Print Assumptions C11_decimal_literal.
+
+Theorem C11_hexadecimal_literal :
+  forall uc ds, ds <> [] -> forallb hex_digit ds = true ->
+    lex uc ([48; 120] ++ ds) =
+    if positional 16 ds <? two128 then one_token (TLit (mkV (positional 16 ds) Unl)) (2 + List.length ds)
+    else ([], Some (LexInvalidConstant 0 (2 + List.length ds))).
+Proof. exact lex_hex_ok. Qed.
+Print Assumptions C11_hexadecimal_literal.
+
+Theorem C11_binary_literal :
+  forall uc ds, ds <> [] -> forallb bin_digit ds = true ->
+    lex uc ([48; 98] ++ ds) =
+    if (List.length ds <=? 128)%nat
+    then one_token (TLit (mkV (positional 2 ds) (Bits (N.of_nat (List.length ds))))) (2 + List.length ds)
+    else ([], Some (LexInvalidConstant 0 (2 + List.length ds))).
+Proof. exact lex_binary_ok. Qed.
+Print Assumptions C11_binary_literal.
 
 (* comparisons do not chain; redundant parentheses change nothing; comments and line endings
    between tokens change nothing (instances computed by the model; the general statements are
